@@ -172,9 +172,30 @@ XmitStart(p) ==
   /\ UNCHANGED <<cfgVars, sockVars, sendQ, psendQ, readyQ, recvVars, call, accepted, delivered, arrivedOK>>
 
 \* the transport call returns
+\* (a sender whose transport send succeeded although its connection has been removed meanwhile - the bytes had been
+\* taken - goes round its loop once more: "lingering", see LingerTake / LingerExit)
 XmitEnd(p, ok) ==
   /\ txHold[p] # NULL /\ txHold[p].st = "tx"
-  /\ txHold' = [txHold EXCEPT ![p] = IF SendKind = "sched" /\ ok THEN [m |-> txHold[p].m, st |-> "post"] ELSE NULL]
+  /\ txHold' = [txHold EXCEPT ![p] = IF SendKind = "sched" /\ ok THEN [m |-> txHold[p].m, st |-> "post"]
+                                     ELSE IF ok /\ pclosed[p] /\ SendKind # "sched" THEN [m |-> txHold[p].m, st |-> "linger"]
+                                     ELSE NULL]
+  /\ UNCHANGED <<cfgVars, sockVars, sendQ, psendQ, readyQ, recvVars, call, histVars>>
+
+\* The sender goroutine of a connection that has been removed, back at its select with both its queue and its close
+\* channel ready: it may take one more message (Go picks either case) - the transport send then fails and the message
+\* is lost, which the statements allow when a connection fails - or leave.
+LingerTake(p) ==
+  /\ txHold[p] # NULL /\ txHold[p].st = "linger"
+  /\ \/ /\ SendKind = "shared" /\ sendQ # <<>>
+        /\ txHold' = [txHold EXCEPT ![p] = [m |-> Head(sendQ), st |-> "go"]]
+        /\ sendQ' = Tail(sendQ) /\ UNCHANGED <<psendQ, readyQ>>
+     \/ /\ SendKind \in {"bcast", "routed"} /\ psendQ[p] # <<>>
+        /\ txHold' = [txHold EXCEPT ![p] = [m |-> Head(psendQ[p]), st |-> "go"]]
+        /\ psendQ' = [psendQ EXCEPT ![p] = Tail(@)] /\ UNCHANGED <<sendQ, readyQ>>
+  /\ UNCHANGED <<cfgVars, sockVars, recvVars, call, histVars>>
+LingerExit(p) ==
+  /\ txHold[p] # NULL /\ txHold[p].st = "linger"
+  /\ txHold' = [txHold EXCEPT ![p] = NULL]
   /\ UNCHANGED <<cfgVars, sockVars, sendQ, psendQ, readyQ, recvVars, call, histVars>>
 
 \* xpush pipe.send: lock region after a successful send - the pipe is ready again
@@ -321,7 +342,7 @@ CanInternal ==
   \/ \E t \in Thread : SendReady(t) \/ RecvReady(t)
   \/ \E p \in Pipe :
        \/ Idle(p) /\ ~pclosed[p] /\ (IF SendKind = "shared" THEN sendQ # <<>> ELSE SendKind \in {"bcast", "routed"} /\ psendQ[p] # <<>>)
-       \/ txHold[p] # NULL /\ txHold[p].st \in {"go", "post"}
+       \/ txHold[p] # NULL /\ txHold[p].st \in {"go", "post", "linger"}
        \/ rxHold[p] # NULL /\ (Len(recvQ) < opt.rq \/ pclosed[p] \/ (Proto = "xstar" /\ sclosed)
                                \/ (opt.rq = 0 /\ recvQ = <<>> /\ \E t \in Thread : call[t] # NULL /\ call[t].op = "recv"))
   \/ SendKind = "sched" /\ ~sclosed /\ readyQ # <<>> /\ sendQ # <<>>
@@ -337,7 +358,7 @@ Next ==
        \/ recvQ # <<>> /\ RecvTake(t, Head(recvQ))
        \/ \E r \in {"ErrClosed", "ErrRecvTimeout"} : RecvFail(t, r)
   \/ \E p \in Pipe :
-       \/ SenderTake(p) \/ XmitStart(p) \/ (\E ok \in BOOLEAN : XmitEnd(p, ok)) \/ Requeue(p)
+       \/ SenderTake(p) \/ XmitStart(p) \/ (\E ok \in BOOLEAN : XmitEnd(p, ok)) \/ Requeue(p) \/ LingerTake(p) \/ LingerExit(p)
        \/ \E m \in MsgSet : m.tag \notin Used /\ PeerMsg(p, [tag |-> m.tag, short |-> FALSE, zeros |-> TRUE, h |-> 0, n |-> 1, avail |-> 1])
        \/ Push(p) \/ Abandon(p)
        \/ (\E ok \in BOOLEAN : AddPipe(p, ok)) \/ RemovePipe(p)
@@ -413,7 +434,7 @@ AllHandedAtRest ==
 \* C02 liveness (checked under FairSpec on small constants): a blocked Send completes when a
 \* connected peer is able to take the message
 Fairness ==
-  /\ \A p \in Pipe : WF_vars(SenderTake(p)) /\ WF_vars(XmitStart(p)) /\ WF_vars(XmitEnd(p, TRUE)) /\ WF_vars(Requeue(p))
+  /\ \A p \in Pipe : WF_vars(SenderTake(p)) /\ WF_vars(XmitStart(p)) /\ WF_vars(XmitEnd(p, TRUE)) /\ WF_vars(Requeue(p)) /\ WF_vars(LingerExit(p))
   /\ WF_vars(Schedule)
   /\ \A t \in Thread : WF_vars(\E r \in {"ok", "ErrClosed", "ErrNoPeers", "ErrSendTimeout"} : SendDone(t, r))
 FairSpec == Spec /\ Fairness
